@@ -3,7 +3,7 @@
 \* other invariant violated on the way.  Run with -workers 1 and the StateDeque (depth-first) queue.
 SPECIFICATION TraceSpec
 INVARIANTS
-  TypeOK NoSchedulerPanic NoUnable OrderOK StagesDisjoint AlsoNeverRuns
+  TypeOK NoSchedulerPanic NoUnable OrderOK ReadsFromCanonical StagesDisjoint AlsoNeverRuns
   SuccessImpliesRan DoneMeansAll ErrorReported CountersExactUnlessAbort
   NotAccepted
 CONSTRAINT Progress
